@@ -128,7 +128,10 @@ def checkFlushRound (ws : List Watcher) (recs : List Rec) (calls : List (Nat × 
             else
               some s!"flush: watcher {wid} received events for {got}, qualifying parameters {want}"
           else evs.findSome? fun e =>
-            match (recs.filter (fun r => r.ev.name = e.name)).getLast? with
+            -- the most recent assignment of that parameter that raised an event for somebody (an
+            -- assignment inside `discard_events`, or a same-value one nobody listens to, raises none)
+            match (recs.filter (fun r => r.ev.name = e.name &&
+                    (r.regs.filterMap (findW ws)).any (qualifies ws r))).getLast? with
             | some r => if e.new != r.ev.new then some s!"flush: event for {e.name} does not carry the final value" else none
             | none => some "flush: event without assignment"
 
